@@ -22,6 +22,7 @@ from harness import c01 as _c01
 from harness import c08 as _c08
 from harness import c02 as _c02
 from harness import c15 as _c15
+from harness import c05 as _c05
 
 
 class MultiStub:
@@ -205,6 +206,13 @@ def update_psd_faults(ctx, nph=1, ncls=2, nel=2, remesh=False, mode="any", recor
                             lo = ctx.ite(lo <= ob[i, e], lo, ob[i, e]); hi = ctx.ite(hi <= ob[i, e], ob[i, e], hi)
                         ctx.prove("refresh failed after a re-mesh: the table continues from the last valid values (between their extremes), it is not forgotten",
                                   ctx.all([ctx.all([ctx.le(lo, m.PSDXbeta[0][i, e]), ctx.le(m.PSDXbeta[0][i, e], hi)]) for i in range(nb + 1)]))
+
+
+def sites_any_grids(ctx, **kw):
+    """as C14.sites_compete (imported lazily): the nucleation-site bookkeeping works when the phases have different numbers of size classes
+    (per-phase grids, or the adaptive grid extending one phase only): no internal error"""
+    from harness import c14
+    return c14.sites_compete(ctx, **kw)
 
 
 def update_psd_binary_reset(ctx, ncls=2, calcAR=False):
@@ -469,6 +477,13 @@ HARNESSES = [
             opts={"ob_timeout": 30.0}, budget={"quick": 150.0, "thorough": 900.0},
             params={"quick": [{"n": 2, "orig": 4, "minb": 2, "maxb": 2, "adaptive": True, "diss": False}],
                     "thorough": [{"n": 3, "orig": 4, "minb": 2, "maxb": 3, "adaptive": True, "diss": True}]}),
+    Harness("C03.later_solve_calls_end_at_their_own_end_time", _c05.entry_twice, functions=[],
+            assumptions=["as C05.entry_twice: a second solve() on the same model runs from the model's current time to current time + simTime (the duration is a delta, not an absolute end time)"],
+            params={"quick": [{"kind": "euler"}], "thorough": [{"kind": "rk4"}]}),
+    Harness("C03.sites_any_grids", sites_any_grids, functions=[PrecipitateModel._calcNucleationSites],
+            assumptions=["as C14.sites_compete with a different class count per phase"],
+            params={"quick": [{"site": "bulk", "nph": 2, "p": 0, "q": 1, "nbs": [2, 3]}, {"site": "dislocations", "nph": 2, "p": 1, "q": 0, "nbs": [2, 3]}],
+                    "thorough": [{"site": st, "nph": 2, "p": 0, "q": 1, "nbs": [2, 3]} for st in ("bulk", "dislocations", "grain boundaries", "grain edges", "grain corners")]}),
     Harness("C03.phases_own_grids", _c02.pbm_per_phase, functions=[PrecipitateModel._resetArrays, PrecipitateModel.setPBMParameters, PBM.UpdatePBMEuler, PBM.addSizeClasses],
             assumptions=["as C02.pbm_per_phase: every phase has its own size-class object (default grids and setPBMParameters), so that one phase extending its grid cannot leave another with arrays of the wrong length"],
             params={"quick": [{"nph": 2, "default": True}], "thorough": [{"nph": 3, "default": True}, {"nph": 3, "how": "all"}]}),
